@@ -425,6 +425,25 @@ def udpmap_constants(out):
     ws = strip_comments(read("penguin/src/server/websocket.rs"))
     v = one(r"TrySendError::Closed\((\w+)\)\)?\s*=>", ws, "websocket.rs: forwarder channel closed arm")
     out.append(f"def serverRespawnsFinishedForwarder : Bool := {'false' if v == '_' else 'true'}")
+    # the SOCKS5 UDP relay of an association (client/handle_remote/socks.rs): what each outcome of
+    # v5::parse_udp_relay_header does to the relay loop - an arm that yields Ok(None) drops the datagram
+    # and the loop goes on; an arm that yields an error ends the association
+    sk = strip_comments(read("penguin/src/client/handle_remote/socks.rs"))
+    hb = one(r"async fn handle_udp_relay_header\((.*?)\n\}\n", sk, "socks.rs handle_udp_relay_header", re.S)
+    mt = one(r"match v5::parse_udp_relay_header\(buf\) \{(.*)\n    \}", hb, "handle_udp_relay_header: match on the parse result", re.S)
+    arms = re.findall(r"\n        (Err\((?:[^()]|\([^()]*\))*\))\s*=>\s*(\{.*?\n        \}|[^\n]*,)", mt, re.S)
+    if not arms:
+        raise Broken("handle_udp_relay_header: no Err arms found in the match on the parse result")
+    def drops(arm_body):
+        return "Ok(None)" in arm_body and "Err(" not in arm_body and "?" not in arm_body
+    frag = [b for (pat, b) in arms if "FragmentedUdp" in pat]
+    other = [b for (pat, b) in arms if "FragmentedUdp" not in pat]
+    if not other:
+        raise Broken("handle_udp_relay_header: no arm for parse errors other than FragmentedUdp")
+    out.append(f"def socksRelayDropsFragmented : Bool := {'true' if (frag or other) and all(drops(b) for b in (frag or other)) else 'false'}")
+    out.append(f"def socksRelayDropsMalformed : Bool := {'true' if all(drops(b) for b in other) else 'false'}")
+    one(r"Ok\(\((\w+), (\w+), (\w+)\)\)\s*=>\s*\{.*?Ok\(Some\(\(\1, \2, \3, addr\.ip\(\), addr\.port\(\)\)\)\)", mt,
+        "handle_udp_relay_header: a parsed request is handed on unchanged with the sender's address", re.S)
 
 
 SECTIONS = {"Frame": frame_constants, "Config": config_constants, "Socks": socks_constants,
